@@ -60,6 +60,12 @@ def concretize(v, model, depth=0):
         if v.witness is None:
             raise Undecided("abstract set without witness function")
         return v.witness(model)
+    if isinstance(v, SSeq) and v.kind == "setlist":
+        from .models import seq_witness
+        w = seq_witness(v)
+        if w is None:
+            raise Undecided("abstract list without witness")
+        return sorted(w(model))
     if isinstance(v, SSeq):
         n = ev(model, v.length)
         if n > 10000:
